@@ -329,25 +329,27 @@ func (e *ExecutorV3) RunTx(context state.Interface, rawTx []byte, rewardPool *bi
 			if tx.Type == TypeCreateCoin || tx.Type == TypeCreateToken {
 				dataCreateSymbol := tx.decodedData.(symbolCreator)
 				symbolPrice := tx.MulGasPrice(dataCreateSymbol.PayForSymbol(commissions))
-				if !commissions.Coin.IsBaseCoin() {
-					var resp *Response
-					resp, symbolPrice, _ = CheckSwap(checkState.Swap().GetSwapper(commissions.Coin, types.GetBaseCoinID()), checkState.Coins().GetCoin(commissions.Coin), checkState.Coins().GetCoin(0), symbolPrice, big.NewInt(0), false)
-					if resp != nil {
-						return *resp
+				if symbolPrice.Sign() != 0 { // at gas price 0 nothing was paid for the ticker and nothing is burned
+					if !commissions.Coin.IsBaseCoin() {
+						var resp *Response
+						resp, symbolPrice, _ = CheckSwap(checkState.Swap().GetSwapper(commissions.Coin, types.GetBaseCoinID()), checkState.Coins().GetCoin(commissions.Coin), checkState.Coins().GetCoin(0), symbolPrice, big.NewInt(0), false)
+						if resp != nil {
+							return *resp
+						}
 					}
-				}
-				if symbolPrice == nil || symbolPrice.Sign() != 1 {
-					return Response{
-						Code: code.CommissionCoinNotSufficient,
-						Log:  fmt.Sprint("Not possible to pay commission"),
-						Info: EncodeError(code.NewCommissionCoinNotSufficient("", "")),
+					if symbolPrice == nil || symbolPrice.Sign() != 1 {
+						return Response{
+							Code: code.CommissionCoinNotSufficient,
+							Log:  fmt.Sprint("Not possible to pay commission"),
+							Info: EncodeError(code.NewCommissionCoinNotSufficient("", "")),
+						}
 					}
+					rewardPool.Sub(rewardPool, symbolPrice)
+					deliverState.Accounts.AddBalance([20]byte{}, 0, symbolPrice)
+					response.Tags = append(response.Tags,
+						abcTypes.EventAttribute{Key: []byte("tx.burned_for_symbol"), Value: []byte(symbolPrice.String())},
+					)
 				}
-				rewardPool.Sub(rewardPool, symbolPrice)
-				deliverState.Accounts.AddBalance([20]byte{}, 0, symbolPrice)
-				response.Tags = append(response.Tags,
-					abcTypes.EventAttribute{Key: []byte("tx.burned_for_symbol"), Value: []byte(symbolPrice.String())},
-				)
 			}
 		}
 	}
